@@ -281,6 +281,8 @@ def analyse(rep: Report) -> None:
             tag = s.aux.get(f'tag:{PT}')
             verdict('R08.6', 'period>0', plo >= 1, f'minimumUpdatePeriod >= {plo:g}',
                     f'minimumUpdatePeriod can be <= 0 where it is used (lower bound {plo:g})')
+            numerator = tag[3] if tag and len(tag) > 3 else None
+            tag = tuple(tag[:3]) if tag else tag
             if tag and tag[0] == 'base+mult' and tag[2] != MUP and dfl(tag[2], MUP) <= 0 and dfl(MUP, tag[2]) <= 0:
                 tag = (tag[0], tag[1], MUP)             # a local alias of the period
             if tag and tag[0] == 'base+mult' and tag[1] != AST_ and dom.same(s, tag[1], AST_):
@@ -289,6 +291,26 @@ def analyse(rep: Report) -> None:
                     'availabilityStartTime + int(elapsed // p) * p',
                     'publishTime is not availabilityStartTime plus int(elapsed // p) * p on a whole second '
                     f'(provenance {tag or "unknown"}): flooring a fractional availabilityStartTime breaks the grid')
+            # the number of refreshes is counted over the elapsed time the object ends up with: a value taken
+            # before elapsedTime / availabilityStartTime were moved counts refreshes of another interval, and
+            # publishTime then lags now by more than one period
+            mo = [v for k_, v in s.aux.items() if k_.startswith('multof:')
+                  and (k_[7:] == MUP or (dfl(k_[7:], MUP) <= 0 and dfl(MUP, k_[7:]) <= 0))]
+            if mo:
+                numerator = mo[0]
+                if numerator.startswith('='):
+                    # a constant numerator: the same thing if the final elapsed time is that constant
+                    elo_, ehi_ = s.bound(EL)
+                    const_ok = elo_ == ehi_ == float(numerator[1:])
+                else:
+                    const_ok = False
+                verdict('R08.6', 'refreshes counted over the final elapsed time',
+                        const_ok or (numerator not in ('?', '') and not numerator.startswith('=')
+                                     and dom.same(s, numerator, EL)),
+                        'int(elapsedTime // p) with the elapsedTime of the exit',
+                        f'the refresh count is the floor of `{numerator}` / p, which is not known to be the elapsedTime the '
+                        f'object ends with (elapsedTime in [{s.bound(EL)[0]:g}, {s.bound(EL)[1]:g}]): publishTime = '
+                        'availabilityStartTime + k*p is not within one period of now')
         else:
             rep.ok('R08.6', construct, f'no period {where}', 'minimumUpdatePeriod disabled: publishTime = floor(now)')
     # R08.9: with a period p, publishTime = AST + k*p is monotone in now while AST stands still.  A
